@@ -18,6 +18,22 @@ def consts(path):
     return out
 
 
+_DED = ("contract-based deductive verification: sidecar pre/postconditions, loop invariants, frame clauses and ghost state on the real numba kernels the property depends on; "
+        "verification conditions generated from the repository source on every run (PyVC) and discharged by z3 / cvc5, specification lemmas by induction; a failed obligation is "
+        "searched for a concrete input with the same engine and replayed on the real compiled function")
+_BND = "the pandas / polars / pyarrow glue around them under run-time contracts on the real functions over a stated bound (the bounded stand-in: labelled bounded, never counted as proved)"
+TECH = {
+    "C04": _DED + "; finite enumeration of the accumulator-dtype table; dispatch: " + _BND,
+    "C07": "bounded only: run-time contracts (pre/post/old, written from the statement) on the real public methods over a bounded-exhaustive input space - the property lives in pandas/polars glue (fancy indexing, container restoration) outside the deductive verifier's reach; no obligation is counted as proved",
+    "C11": "bounded only: run-time contracts on the real public methods over a bounded-exhaustive input space (labelling, ordering and shape are decided by pandas index glue outside the deductive verifier's reach); nothing counted as proved",
+    "C13": "bounded only: run-time contracts comparing every call in bounded operation histories on one GroupBy object with the same call on a fresh object (object state, caches and pyarrow re-chunking are outside the deductive verifier's reach); nothing counted as proved",
+    "C14": "bounded only: run-time contracts on the real margins / crosstab methods against the aggregation they summarise over a bounded-exhaustive input space (pandas MultiIndex glue, outside the deductive verifier's reach); nothing counted as proved",
+    "C16": "deductive part: the sum / sum-of-squares / count kernels and the variance identity (lemmas L-var, L-welford) by PyVC + z3/cvc5; medians, quantiles, apply and the composite helpers: " + _BND,
+    "C17": "structural obligations on the AST of the facade (symbolic execution of every delegating method with the core methods uninterpreted: decided for all inputs, about program text) + " + _BND,
+    "C18": "structural obligations on every use of the alignment decorator (AST, all inputs) + the positions contract of _group_by_reduce (deductive, PyVC) + " + _BND,
+}
+
+
 def main():
     checks, na = [], []
     reasons = json.load(open(os.path.join(ROOT, "tools", "not_applicable.json"))) if os.path.exists(os.path.join(ROOT, "tools", "not_applicable.json")) else {}
@@ -30,7 +46,7 @@ def main():
                        "replay_cmd_template": f"./check {p} --replay {{path}}", "engine": "pyvc+rtc" if c.get("P_TIER", True) else "rtc",
                        "level_claimed": {"category": c["LEVEL"], "text": c.get("LEVEL_TEXT", c.get("EXPLANATION", "")), "design_ref": f"DESIGN.md section 6, {p}"},
                        "level_note": c.get("LEVEL_NOTE", "; ".join(c.get("ASSUMPTIONS", []))[:1500]),
-                       "technique": c.get("TECHNIQUE", "contract-based deductive verification: sidecar pre/postconditions and loop invariants on the real numba kernels, VCs generated from the repository source by PyVC and discharged by z3/cvc5; the pandas glue under run-time contracts over a stated bound (bounded, not proved)")})
+                       "technique": c.get("TECHNIQUE", TECH.get(p, _DED + "; " + _BND))})
     man = {"version": 1, "setup_cmd": "./setup.sh",
            "hooks": {"guard": "GROUPBY_LIB_VERIF", "enable": "no source hook is needed: checks import /repo's working tree as it is (editable install) and attach sidecar contracts from outside; GROUPBY_LIB_VERIF=1 is exported by the harness but read by nothing in /repo",
                      "baseline_off_cmd": "cd /repo && /venv/bin/python -m pytest -ra -q -p no:cacheprovider --timeout=900 --continue-on-collection-errors", "source_commits": [], "add_only": True},
